@@ -35,8 +35,15 @@ func pollSweep(c *explore.Ctx, wls []c12Workload) {
 		}
 		total := polls
 		var idx int64
-		for _, bufSize := range []int{1, 4096} {
+		bufSizes := []int{1, 4096}
+		if wl.pollsOnly {
+			bufSizes = []int{4096}
+		}
+		for _, bufSize := range bufSizes {
 			for p := 0; p <= total; p++ {
+				if wl.pollsOnly && p >= 64 && p < total-256 {
+					continue
+				}
 				my := idx
 				idx++
 				if !c.MineIdx(scope, my) {
